@@ -62,18 +62,22 @@ def string_enum(ctx, F, cfg, path, oracle):
     ctx.oblige("C18|str|%s|total" % short, OTHER in btab, "no rejecting catch-all in TryFrom<&str> for " + short, cfg=cfg)
     brows = [[repr(v)[:40], FT.classify(r)[0]] for v, r in btab.items()]
     ctx.oblige("C18|str|%s|distinct" % short, len(set(fwd.values())) == len(fwd), "two %s variants share a spelling" % short, cfg=cfg)
-    # serde wiring: Serialize goes through From<E> for &str, Deserialize through TryFrom<&str> for E
-    ser = F.impl_fn(SER, path, "serialize")
-    de = F.impl_fn(DE, path, "deserialize")
-    okser = okde = False
-    if len(ser) == 1:
-        okser = any(H.conversion_impl(n) == "<&str as core::convert::From<%s>>" % path for n in H.walk(ser[0]["body"]))
-    if len(de) == 1:
-        has_str = any(n.get("k") == "call" and n.get("callee") == "serde_core::de::Deserialize::deserialize" and (n.get("targs") or [""])[0] == "&str" for n in H.walk(de[0]["body"]))
-        has_conv = any(H.conversion_impl(n) == "<%s as core::convert::TryFrom<&str>>" % path for n in H.walk(de[0]["body"]))
-        okde = has_str and has_conv
-    ctx.oblige("C18|str|%s|serde-ser" % short, okser, "%s is not serialised through its From<%s> for &str table" % (short, short), cfg=cfg)
-    ctx.oblige("C18|str|%s|serde-de" % short, okde, "%s is not deserialised through its TryFrom<&str> table" % short, cfg=cfg)
+    # serde wiring: what Serialize emits for each variant is the From<E> for &str table; what Deserialize accepts is the
+    # TryFrom<&str> table (derived through into/try_from = "&str" or written by hand, read from the path summaries alike)
+    try:
+        ty, enc, _ = FT.enum_encode(F, path)
+        okser, why = (ty == "str" and enc == fwd), "emits %s %s" % (ty, enc)
+    except FT.Unreadable as e:
+        okser, why = False, "UNREADABLE-IMPL: %s" % e
+    ctx.oblige("C18|str|%s|serde-ser" % short, okser, "%s is not serialised as the text string of its From<%s> for &str table (%s)" % (short, short, why), cfg=cfg)
+    try:
+        ty, dec, _ = FT.enum_decode(F, path, list(oracle.values()) + [OTHER], add_literals=True)
+        wantdec = {v: (FT.ctor_name(FT.classify(r)[1]) if FT.classify(r)[0] == "ok" else None) for v, r in btab.items()}
+        okde = ty == "str" and all(dec.get(v) == wantdec.get(v) for v in set(dec) | set(wantdec))
+        why = "reads %s, accepts %s" % (ty, {k: v for k, v in dec.items() if v})
+    except FT.Unreadable as e:
+        okde, why = False, "UNREADABLE-IMPL: %s" % e
+    ctx.oblige("C18|str|%s|serde-de" % short, okde, "%s is not deserialised as a text string through its TryFrom<&str> table (%s)" % (short, why), cfg=cfg)
     ctx.sample({"cfg": cfg, "enum": path, "encode": fwd, "decode_arms": brows}, limit=12)
     return rows
 
@@ -93,6 +97,7 @@ def repr_int(s):
 
 
 def repr_enum(ctx, F, cfg, path, spec):
+    from . import ftable as FT
     short = path.split("::")[-1]
     adt = F.adt(path)
     if not ctx.oblige("C18|num|%s|adt" % short, adt is not None and adt["kind"] == "enum", "anchor missing: enum " + path, cfg=cfg):
@@ -116,49 +121,21 @@ def repr_enum(ctx, F, cfg, path, spec):
         de = F.impl_fn(DE, path, "deserialize")
         good = len(ser) == 1 and len(de) == 1
         if ctx.oblige("C18|num|%s|serde-impls" % short, good, "%s lacks exactly one Serialize and one Deserialize impl" % short, cfg=cfg):
-            # Serialize: value = match *self { V => V as u8 }, then the u8 is serialised
-            okser = False
+            # Serialize emits the variant's own discriminant as the repr integer; Deserialize reads that integer type and accepts
+            # exactly the discriminants (serde_repr or hand-written, read from the path summaries alike)
+            want_ty = spec.get("repr") or "u8"
             try:
-                body = ser[0]["body"]
-                lets = [s for s in body.get("stmts", []) if s["k"] == "let"]
-                if len(lets) == 1 and lets[0]["pat"].get("ty") == "u8":
-                    m = H.strip_block(lets[0]["init"])
-                    ident = m.get("k") == "match"
-                    for a in (m.get("arms") or []):
-                        v = H.pat_ctor(a["pat"])
-                        b = H.strip_block(a["body"])
-                        if not (b.get("k") == "cast" and b.get("ty") == "u8" and H.ctor(b["e"]) == v):
-                            ident = False
-                    tail = H.strip_block(body.get("expr", {}))
-                    okser = ident and tail.get("callee") == "serde_core::ser::Serialize::serialize" and (tail.get("targs") or [""])[0] == "u8" \
-                        and H.local_id(tail["args"][0]) == lets[0]["pat"]["id"]
-            except (KeyError, IndexError):
-                okser = False
-            ctx.oblige("C18|num|%s|serde-ser" % short, okser, "%s is not serialised as its own discriminant (u8)" % short, cfg=cfg, where=ser[0]["sp"])
-            # Deserialize: match <u8>::deserialize(d)? { const => Ok(V) .. other => Err }
-            okde = True
-            msg = ""
+                ty, enc, _ = FT.enum_encode(F, path)
+                okser, why = (ty == want_ty and enc == discr), "emits %s %s" % (ty, enc)
+            except FT.Unreadable as e:
+                okser, why = False, "UNREADABLE-IMPL: %s" % e
+            ctx.oblige("C18|num|%s|serde-ser" % short, okser, "%s is not serialised as its own discriminant (%s): %s" % (short, want_ty, why), cfg=cfg, where=ser[0]["sp"])
             try:
-                m, rows_ = T.conversion_table(de[0], F)
-                sc = H.strip_block(m["scrut"])
-                if not (sc.get("k") == "try" and H.strip_block(sc["e"]).get("callee") == "serde_core::de::Deserialize::deserialize"
-                        and (H.strip_block(sc["e"]).get("targs") or [""])[0] == "u8"):
-                    okde, msg = False, "does not decode a u8"
-                accepted = {}
-                for r in rows_:
-                    if r["catchall"]:
-                        if r["kind"] != "err":
-                            okde, msg = False, "catch-all accepts"
-                        break
-                    k, c = T.result_value(r["res"], F)
-                    name = c.split("::")[-1] if k == "ctor" and c else None
-                    for v in r["vals"]:
-                        accepted.setdefault(v, name)
-                else:
-                    okde, msg = False, "no rejecting catch-all"
-                if okde and accepted != {v: n for n, v in discr.items()}:
-                    okde, msg = False, "accepts %s, discriminants are %s" % (accepted, discr)
-            except T.Unreadable as e:
+                ty, dec, _ = FT.enum_decode(F, path, range(256))
+                acc = {v: n for v, n in dec.items() if n is not None}
+                okde = ty == want_ty and acc == {v: n for n, v in discr.items()}
+                msg = "reads %s, accepts %s, discriminants are %s" % (ty, acc, discr)
+            except FT.Unreadable as e:
                 okde, msg = False, "UNREADABLE-IMPL: %s" % e
             ctx.oblige("C18|num|%s|serde-de" % short, okde, "%s deserialisation table: %s" % (short, msg), cfg=cfg, where=de[0]["sp"])
     if spec.get("try_from_u8"):
